@@ -56,7 +56,11 @@ func (c *ServiceContext) Clone() Context {
 // GetServiceContext returns the *core.ServiceContext bound to the context.
 func GetServiceContext(ctx context.Context) *ServiceContext {
 	if c, ok := FromContext(ctx); ok {
-		return c.(*ServiceContext)
+		// the same context.Context may carry the context of the other side (a
+		// service method that calls another service with its own context)
+		if cc, ok := c.(*ServiceContext); ok {
+			return cc
+		}
 	}
 	return nil
 }
